@@ -276,6 +276,16 @@ func c28MalleableTwin(hexsig string) (string, bool) {
 	return hex.EncodeToString(out), true
 }
 
+// c28TimeShifts: one unit of every clock/calendar component of a time.
+var c28TimeShifts = []struct {
+	name string
+	d    time.Duration
+	y, m int
+}{
+	{"1s", time.Second, 0, 0}, {"1m", time.Minute, 0, 0}, {"1h", time.Hour, 0, 0}, {"12h", 12 * time.Hour, 0, 0},
+	{"24h", 24 * time.Hour, 0, 0}, {"1month", 0, 0, 1}, {"1year", 0, 1, 0}, {"100years", 0, 100, 0},
+}
+
 // c28Mutate produces the mutations of one site. Every mutation changes the meaning of exactly one field (or the order /
 // membership of one array).
 func c28Mutate(rt *rapid.T, root any, site c28Site, hintSwaps bool) []c28Mutation {
@@ -337,7 +347,30 @@ func c28Mutate(rt *rapid.T, root any, site c28Site, hintSwaps bool) []c28Mutatio
 			if tm, err := time.Parse(time.RFC3339Nano, t); err == nil && len(t) >= 20 {
 				// times are content at mitum's millisecond precision (localtime.Normalize)
 				add("time +1ms", tm.Add(time.Millisecond).Format(time.RFC3339Nano))
-				add("time +1h", tm.Add(time.Hour).Format(time.RFC3339Nano))
+
+				// one unit of every calendar/clock component in both directions (a byte form of the time that drops
+				// or folds a component - seconds, 12-hour clock, date only - is only visible on the matching shift),
+				// plus a free millisecond-aligned offset
+				for k := 0; k < 2; k++ {
+					i := rapid.IntRange(0, len(c28TimeShifts)).Draw(rt, "timeshift")
+					sign := time.Duration(1 - 2*rapid.IntRange(0, 1).Draw(rt, "timeshiftsign"))
+
+					if i == len(c28TimeShifts) {
+						d := sign * time.Duration(rapid.Int64Range(1, 400*24*3600*1000).Draw(rt, "timeshiftms")) * time.Millisecond
+						add("time "+d.String(), tm.Add(d).Format(time.RFC3339Nano))
+
+						continue
+					}
+
+					sh := c28TimeShifts[i]
+					n := tm.Add(sign*sh.d).AddDate(int(sign)*sh.y, int(sign)*sh.m, 0)
+
+					if n.Equal(tm) {
+						continue
+					}
+
+					add(fmt.Sprintf("time %+d*%s", sign, sh.name), n.Format(time.RFC3339Nano))
+				}
 
 				return out
 			}
